@@ -40,6 +40,7 @@ type c07Scenario struct {
 	Routes        []c07Route `json:"routes"`
 	NoRouteStatus int        `json:"noroute_status"`
 	NoRouteHTML   string     `json:"noroute_html"`
+	NoRoutePrev   string     `json:"noroute_html_before"`
 	Clients       []h2Client `json:"clients"`
 	Faults        bool       `json:"faults"`
 }
@@ -131,6 +132,7 @@ func c07Gen(g *simcore.Tape, thorough bool) *c07Scenario {
 	}
 	sc.NoRouteStatus = simcore.Pick(g, []int{404, 404, 503, 1000, 0, 200})
 	sc.NoRouteHTML = simcore.Pick(g, []string{"", "<html>no route</html>", "plain text page"})
+	sc.NoRoutePrev = simcore.Pick(g, []string{"", "<html>earlier page</html>"})
 	sc.Faults = g.Chance(25)
 	maxBody := 20000
 	if thorough {
@@ -200,6 +202,9 @@ func c07Gen(g *simcore.Tape, thorough bool) *c07Scenario {
 			}
 			rs.BodyLen = len(rs.Body)
 			rs.Chunks = c07GenChunks(g, len(rs.Body)+100)
+			if g.Chance(12) {
+				rs.Early = g.Range(1, 2)
+			}
 			if sc.Faults && g.Chance(40) {
 				switch g.Intn(3) {
 				case 0:
@@ -259,6 +264,9 @@ func runC07(r *simcore.Run) {
 	cfg.Proxy.NoRouteStatus = sc.NoRouteStatus
 	cfg.GlobCacheSize = 100
 	cfg.Proxy.DialTimeout = 30 * time.Second
+	// the page has a history: an earlier page was configured, then the final one (possibly none)
+	noroute.SetHTML("<html>page of an earlier run</html>") // whatever an earlier run in this process left behind must not matter
+	noroute.SetHTML(sc.NoRoutePrev)
 	noroute.SetHTML(sc.NoRouteHTML)
 	e := h2NewEnv(r, cfg, c07Table(sc))
 	defer e.finish()
